@@ -28,27 +28,27 @@ CHECKS = {
             'DESIGN.md section 4, C20'),
     'C03': ('exploration',
             'fuzzing with crash / panic / step-budget / empty-diagnostics oracles on the real pipeline in worker processes (overflow-checked build), plain-release replay, gdb-symbolised crash signatures, valgrind memcheck slice',
-            'Hostile inputs (token-level mutations of all repository samples, token soup, raw UTF-8, 125 adversarial shapes, 2-5 file projects) are run through the real mamba_to_python on an 8 MiB stack under catch_unwind with a logical step budget armed through the counter hook; a worker death, panic, exceeded budget or empty diagnostics list is a violation; every 50th input is replayed on the plain release build and verdict differences are reported; thorough adds a valgrind memcheck slice.',
+            'Hostile inputs (token-level mutations of all repository samples, token soup, raw UTF-8, 682 adversarial shapes (incl. a restricted-position x expression/type form matrix aimed at the expect/panic sites of the generator), 2-5 file projects) are run through the real mamba_to_python on an 8 MiB stack under catch_unwind with a logical step budget armed through the counter hook; a worker death, panic, exceeded budget or empty diagnostics list is a violation; every 50th input is replayed on the plain release build and verdict differences are reported; thorough adds a valgrind memcheck slice.',
             'Bounds: <= 4 KiB and <= 150 lines per file, <= 5 files; time bound = 4000 + 40*(tokens+1)^2 counted steps at the instrumented loop heads / recursive entries (a loop in uninstrumented code would surface as a watchdog inconclusive, not as a verdict).',
             'DESIGN.md section 4, C03'),
     'C01': ('translation_validation',
             'history-vs-model runtime monitor: programs transpiled by the real pipeline, emitted Python executed by CPython, printed lines and uncaught exception class compared with a reference interpreter; systematic construct x context sweep + seeded random programs, both annotate flags',
-            'Translation validation by execution: 1232 sweep cells (136 construct payloads x up to 9 contexts: top level, function, method, loop, then, else, match arm, handle arm, function-in-loop-in-if) and seeded random typed programs are transpiled with annotate on and off; each emitted module is run and its behaviour compared with the reference semantics; every disagreement is re-run, shrunk structurally and given a construct-tag signature.',
+            'Translation validation by execution: 1590 sweep cells (161 construct payloads x up to 9 contexts, 205 cells repeated with every one-statement block attached to its header line; 136 value-position text programs x both flags run for five arguments against a written-down meaning; contexts: top level, function, method, loop, then, else, match arm, handle arm, function-in-loop-in-if) and seeded random typed programs are transpiled with annotate on and off; each emitted module is run and its behaviour compared with the reference semantics; every disagreement is re-run, shrunk structurally and given a construct-tag signature.',
             'Trusts CPython 3.11 for the behaviour of Python and the reference interpreter in mv/lang.py as the reading of the documented semantics (small, canary-tested); rejected programs are not judged here (C05 owns over-rejection).',
             'DESIGN.md section 4, C01'),
     'C05': ('exploration',
             'verdict-comparison runtime monitor: systematic single-fault sweep of small programs through the real pipeline; accept/reject compared with the reference typing discipline; accepted violating cells are executed to attach the run-time harm',
-            '7653 cells: use-site (call, nested call argument, method call, constructor, annotated local, reassignment, field assignment) x filler of each type in several syntactic forms x 9 contexts; arity cells for functions, methods (also inherited) and constructors incl. defaults; return cells (implicit/explicit, through if/else/match/loop, with and without preceding statements, in functions and methods). Demanded verdict from Int <: Float <: Complex, class inheritance and Any.',
+            '11083 cells (incl. a three-level hierarchy, a diamond, and scope-reuse variants in which the name of the filler variable is defined again with another type in a scope that has ended): use-site (call, nested call argument, method call, constructor, annotated local, reassignment, field assignment) x filler of each type in several syntactic forms x 9 contexts; arity cells for functions, methods (also inherited) and constructors incl. defaults; return cells (implicit/explicit, through if/else/match/loop, with and without preceding statements, in functions and methods). Demanded verdict from Int <: Float <: Complex, class inheritance and Any.',
             'The reference discipline is the one the property states; every cell is a small program that differs from an accepted program by one use; a mismatch that occurs in every context of its group is reported as one context-independent signature. Cells are deterministic (seed independent) and all are evaluated in both tiers.',
             'DESIGN.md section 4, C05'),
     'C06': ('exploration',
             'verdict-comparison runtime monitor: systematic single-fault sweep of small programs through the real pipeline; accept/reject compared with the reference typing discipline; accepted violating cells are executed to attach the run-time harm',
-            '6851 cells: T in (Int, Float, Str, Bool, user class, tuple, List[Int]) x consuming position (initialiser, reassignment, field, argument, method argument, constructor argument, return, operand, receiver) x source (None, T? variable holding None / a value, T? field, T?-returning call, T? parameter, x ? d, plain T) x 9 contexts, both directions.',
+            '12342 cells (incl. scope-reuse sources, conditional expressions with a nullable branch, returns from loop bodies): T in (Int, Float, Str, Bool, user class, tuple, List[Int]) x consuming position (initialiser, reassignment, field, argument, method argument, constructor argument, return, operand, receiver) x source (None, T? variable holding None / a value, T? field, T?-returning call, T? parameter, x ? d, plain T) x 9 contexts, both directions.',
             'The reference discipline is the one the property states; every cell is a small program that differs from an accepted program by one use; a mismatch that occurs in every context of its group is reported as one context-independent signature. Cells are deterministic (seed independent) and all are evaluated in both tiers.',
             'DESIGN.md section 4, C06'),
     'C07': ('exploration',
             'verdict-comparison runtime monitor: systematic single-fault sweep of small programs through the real pipeline; accept/reject compared with the reference typing discipline; accepted violating cells are executed to attach the run-time harm',
-            '1972 cells: definition form (plain, annotated, tuple component, class argument, class-body field, parameter) x fin/mutable x assignment operator (:= += -= *= ^= <<= >>=) x nesting of the assignment x context; assignments through self / fin self / fin receiver variables; never-defined targets; shadowing re-definitions that flip mutability in both directions.',
+            '2670 cells: definition form (plain, annotated, tuple component, nested / annotated tuple target, class argument, class-body field, parameter) x fin/mutable x assignment operator (:= += -= *= ^= <<= >>=) x nesting of the assignment x context; assignments through self / fin self / fin receiver variables; never-defined targets; shadowing re-definitions that flip mutability in both directions.',
             'The reference discipline is the one the property states; every cell is a small program that differs from an accepted program by one use; a mismatch that occurs in every context of its group is reported as one context-independent signature. Cells are deterministic (seed independent) and all are evaluated in both tiers.',
             'DESIGN.md section 4, C07'),
     'C08': ('exploration',
@@ -58,22 +58,22 @@ CHECKS = {
             'DESIGN.md section 4, C08'),
     'C09': ('exploration',
             'verdict-comparison runtime monitor: systematic single-fault sweep of small programs through the real pipeline; accept/reject compared with the reference typing discipline; accepted violating cells are executed to attach the run-time harm',
-            '974 cells: placement of the definition (never, before, later, one branch, both branches, one/all match arms, loop body, loop / match / comprehension variable outside its scope, handle arm, shadowing, nesting depth 1-3, tuple definitions) x use form (print, initialiser, argument, condition, interpolation) x 7 contexts; forward use of top-level functions/classes; field reads and completeness in explicit constructors (through if/match).',
+            '1546 cells: placement of the definition (never, before, later, one branch (taken and not taken at run time), both branches, one/all match arms, loop body (also zero iterations), comprehension variables (list/set/dict; statement, definition, match subject, argument), constructors incl. a child that re-declares a parent field, loop / match / comprehension variable outside its scope, handle arm, shadowing, nesting depth 1-3, tuple definitions) x use form (print, initialiser, argument, condition, interpolation) x 7 contexts; forward use of top-level functions/classes; field reads and completeness in explicit constructors (through if/match).',
             'The reference discipline is the one the property states; every cell is a small program that differs from an accepted program by one use; a mismatch that occurs in every context of its group is reported as one context-independent signature. Cells are deterministic (seed independent) and all are evaluated in both tiers.',
             'DESIGN.md section 4, C09'),
     'C12': ('exploration',
             'runtime monitor over repetition: identical arguments run K times sequentially in one process, on T concurrent threads, after a conflicting earlier workload in the same process (history test against a brand-new process) and in P further processes; verdicts and emitted bytes compared',
-            'Schedules here are hash seeds and process histories: every HashSet/HashMap instance inside mamba gets a fresh seed per run, so repetition explores iteration orders; the history test runs a program after a twin with the same class names but different relations (what a process-wide cache keyed by name would confuse) and compares with a process that never saw the twin. Workload biased to hash-ordered internals: interleaved class members, several parents, unions of 2-4 types incl. same-named generics, multi-member raise lists, multi-file projects, generated programs, repository samples.',
+            'Schedules here are hash seeds and process histories: every HashSet/HashMap instance inside mamba gets a fresh seed per run, so repetition explores iteration orders; the history test runs a program after a twin with the same class names but different relations (what a process-wide cache keyed by name would confuse) and compares with a process that never saw the twin. Half of the parent sets define the same member with different signatures (fits one parent only), helper-lambda producing `e ? d` forms are included. Workload biased to hash-ordered internals: interleaved class members, several parents, unions of 2-4 types incl. same-named generics, multi-member raise lists, multi-file projects, generated programs, repository samples.',
             'Probabilistic in the number of repetitions (quick: 8 sequential + 8 threads + 2-3 processes per flag; thorough: 40 + 16 + 3); differences in diagnostic text are reported but are not violations.',
             'DESIGN.md section 4, C12'),
     'C13': ('fault_enumeration',
-            'runtime monitor on the real binary and library: strace write-set + directory snapshots, all permutations of the file list, unrelated-file addition, re-runs into populated output directories, one run per (file, fault kind)',
+            'runtime monitor on the real binary and library: strace write-set + directory snapshots, all permutations of the file list, unrelated-file addition, re-runs into populated output directories (same project, shortened file, other annotate flag, changed source with an old modification time), one run per (file, fault kind)',
             'Generated projects (1-5 files in nested directories, cross-file classes/functions/exceptions in both dependency directions and cycles). Per accepted project: every permutation of the file list through mamba_to_python (outputs compared as Python ASTs), the project plus an unrelated file, the real binary under strace -f -e trace=%file in three CLI layouts (write-set = exactly the mirrored .py files, nothing outside the output directory, nothing removed, content equal to the library output), a second run into the populated directory, a run after one file got shorter (must equal a fresh transpilation), and for each file and each fault kind (lexical, syntactic, type) one run with that single file faulty, into the populated and into a fresh directory: exit status non-zero, no Python written, previous output untouched, every diagnostic names exactly the faulty file.',
             'strace sees all file-system effects; injected faults are file-local and verified to be faults (the faulty file alone is rejected at the parse stage); imports only for flat module names (dotted paths do not parse on this tree).',
             'DESIGN.md section 4, C13'),
     'C11': ('translation_validation',
             'two-translation comparison at run time: every input transpiled with annotate on and off by the real pipeline; verdicts compared; outputs compared as Python ASTs after annotation erasure; generated programs and valid samples executed under both outputs',
-            'Translation validation of one translation against the other: 29 annotation-sensitive construct cells, the 1300-cell construct x context sweep, seeded random programs, all 277 repository samples and mutated samples. Same verdict required; erase(ast(on)) == erase(ast(off)) where erasure turns annotated assignments into assignments, drops bare annotations, clears parameter/return annotations and reduces typing imports to the names still used; executed behaviour (printed lines, exception class) of both outputs must be equal.',
+            'Translation validation of one translation against the other: 29 annotation-sensitive construct cells, the 1590-cell construct x context sweep, construct x user-import cells (incl. aliased imports from typing / abc), seeded random programs, all 277 repository samples and mutated samples. Same verdict required; erase(ast(on)) == erase(ast(off)) where erasure turns annotated assignments into assignments, drops bare annotations, clears parameter/return annotations and reduces typing imports to the names still used; executed behaviour (printed lines, exception class) of both outputs must be equal.',
             'CPython ast as the notion of "same program"; an irreproducible baseline is left to C12.',
             'DESIGN.md section 4, C11'),
     'C16': ('exploration',
@@ -87,18 +87,18 @@ CHECKS = {
             'No trivia is inserted inside string literals; comments are not transpiled, so bytes must be identical; a non-reproducible baseline is left to C12.',
             'DESIGN.md section 4, C14'),
     'C17': ('exploration',
-            'runtime monitor on executed modules: the emitted module is run and introspected (inspect.signature of every function, class, method; constructor signature as Python sees it incl. inherited; __bases__ order) against the table implied by the Mamba definitions; a generated Python client then calls every function positionally, with defaults omitted, by keyword and by keyword in reverse order',
-            'Random class/function shape family (0-4 class arguments with/without def, 0-3 parents with identifier/string arguments in any position, abstract parent, explicit constructor with default, interleaved fields/methods/operators, parameter defaults, vararg), generated programs and sweep cells, both flags; shape programs judged 2-3 times so that hash-order dependent member loss shows.',
+            'runtime monitor on executed modules: the emitted module is run and introspected (inspect.signature of every function, class, method; constructor signature as Python sees it incl. inherited; __bases__ order) against the table implied by the Mamba definitions (names, order, default VALUES, variadic markers); a generated Python client then calls every function positionally, with defaults omitted, by keyword and by keyword in reverse order',
+            'Random class/function shape family (0-4 class arguments with/without def, 0-3 parents with identifier/string arguments in any position, abstract parent, explicit constructor with default, interleaved fields/methods/operators, parameter defaults of scalar, tuple, list-of-tuple and nullable type, vararg), generated programs and sweep cells, both flags; shape programs judged 2-3 times so that hash-order dependent member loss shows.',
             'A class without class arguments and parent arguments needs no __init__ of its own: the constructor signature Python reports is what is compared.',
             'DESIGN.md section 4, C17'),
     'C02': ('exploration',
-            'runtime monitor with CPython compile() as oracle on the exact text the real pipeline returned: generator workloads, repository samples, accepted survivors of token-level mutation / token soup / type-expression fuzz / adversarial shapes, and a catalogue of one-line and nested statement/expression shapes; both flags',
+            'runtime monitor with CPython compile() as oracle on the exact text the real pipeline returned: generator workloads, repository samples, accepted survivors of token-level mutation / token soup / type-expression fuzz / adversarial shapes, a catalogue of one-line and nested statement/expression shapes, 136 value-position programs (value-producing compound construct x value-consuming position) and with-statement shapes; both flags',
             'Every accepted input of the streams has each returned module compiled by CPython; a refusal is classified from the emitted text (detectors for the listed literal/statement shapes, otherwise CPython message + shape of the offending line) so that a printer regression gets a signature of its own; the first witness of each signature is shrunk on the Mamba side.',
             'CPython 3.11 compile() defines valid Python 3. Most fuzz inputs are rejected by the pipeline; the floor demands >= 2% accepted.',
             'DESIGN.md section 4, C02'),
     'C04': ('exploration',
             'runtime monitor with CPython as oracle: whatever the real pipeline accepts is executed and must not end with TypeError / AttributeError / NameError / UnboundLocalError; workload aimed by the typing sweeps',
-            'Operator x operand-type sweep (14 binary and 4 unary operators x 8 operand types, as literals and as declared variables, at top level and inside a function), misuse cells (member of another class, renamed function / variable / field / method / class, non-callable, non-indexable ...), every violating single-point edit of the C05/C06/C07/C09 sweeps (wrong argument / initialiser / receiver / return value, dropped or added argument, nullable source, undefined use) placed on an executed path with callee bodies that use their arguments, plus well-typed sweep and random programs.',
+            'Operator x operand-type sweep (14 binary, 4 unary and 7 augmented-assignment operators x 8 operand types, as literals and as declared variables, at top level, inside a function and on a field through self), misuse cells (member of another class, renamed function / variable / field / method / class, non-callable, non-indexable ...), every violating single-point edit of the C05/C06/C07/C09 sweeps (wrong argument / initialiser / receiver / return value, dropped or added argument, nullable source, undefined use) placed on an executed path with callee bodies that use their arguments, plus well-typed sweep and random programs.',
             'Every edit stands on an executed path; exceptions outside the four classes are fine. No reference model decides anything: CPython does.',
             'DESIGN.md section 4, C04'),
     'C15': ('exploration',
@@ -108,7 +108,7 @@ CHECKS = {
             'DESIGN.md section 4, C15'),
     'C19': ('fault_enumeration',
             'runtime monitor on rendered diagnostics: a parser for the renderer\'s own format applied to the strings mamba_to_python returns, cross-checked with the rejecting stage obtained through the public stage functions; fault enumeration per line',
-            'For sweep cells and generated programs, each code line gets one lexical, one syntactic and one type fault (the latter on a line of its own), and the last statement is truncated under three final-newline forms; the same per file of generated multi-file projects; plus the rejected inputs of the hostile streams (mutated samples, class-hierarchy and type-expression fuzz, soup, raw text), adversarial shapes and the repository\'s invalid samples. Checked: at least one diagnostic; header names a given file (the faulty one); header position inside that file\'s text; every quoted line verbatim; the fault line is mentioned.',
+            'For sweep cells, generated programs and nine text bases with doc-strings / multi-line strings above the code, each code line outside strings gets one lexical and one syntactic fault, three of seven ill-typed statements (each on a line of its own; each reported by another part of the checker), an undefined parent where it is a class header; two-file projects in which a three-line file uses a declaration made on line 9-10 of the other file; and the last statement is truncated under three final-newline forms; the same per file of generated multi-file projects; plus the rejected inputs of the hostile streams (mutated samples, class-hierarchy and type-expression fuzz, soup, raw text), adversarial shapes and the repository\'s invalid samples. Checked: at least one diagnostic; header names a given file (the faulty one); header position inside that file\'s text; every quoted line verbatim; the fault line is mentioned.',
             'Line N as the renderer defines it (Rust str::lines). Localisation is only judged for faults that have a line of their own, and for lexical/syntactic faults only when the parse stage rejects.',
             'DESIGN.md section 4, C19'),
 }
